@@ -1479,6 +1479,16 @@ class Evaluator:
 
     def ev_mcall(self, n, env, depth):
         fn = n.get("resolved") or n.get("fn") or ("?::" + n["name"])
+        if n["name"] == "zeroize" and not n["args"] and "eroize" in fn:
+            # Zeroize for Option<Z>: the value is wiped and the Option left as None (zeroize 1.x) — on a member of a structured value
+            r_ = H.strip(n["recv"])
+            if r_.get("k") == "field":
+                base_ = self.ev(r_["base"], env, depth)
+                if isinstance(base_, St):
+                    fty_ = next((f_["ty"] for f_ in (self.F.adt_fields(base_.ty) or []) if f_["name"] == r_["name"]), "").replace(" ", "")
+                    if fty_.startswith(("core::option::Option<", "Option<")):
+                        base_.f[r_["name"]] = V("None")
+                        return UNIT
         recv = self.ev(n["recv"], env, depth)
         args = [recv] + [self.ev(a, env, depth) for a in n["args"]]
         return self.call_fn(fn, args, depth, n, method=n["name"])
@@ -1506,7 +1516,14 @@ class Evaluator:
         # an async block handed to an opaque consumer (futures.push(async move {..})) is evaluated eagerly: its effects and its
         # output value are what the consumer eventually observes
         args = [self.run_future(a, 0) if isinstance(a, Clo) and (a.node.get("ckind") or "").startswith("Coroutine") else a for a in args]
-        r = Sym(("call", fn, tuple(term(a) for a in args)))
+        targs_ = tuple(term(a) for a in args)
+        eff_ = getattr(self, "effectful", None)
+        if eff_ is not None and eff_.search(fn):
+            # an effectful oracle (a storage call): the same call made again is another occurrence with its own outcome
+            k_ = sum(1 for e_ in self.path.events if e_.kind == "call" and e_.fn == fn and tuple(term(a) for a in e_.args) == targs_)
+            if k_:
+                targs_ = targs_ + (("occurrence", k_),)
+        r = Sym(("call", fn, targs_))
         if node.get("rty") and fn in (node.get("fn"), node.get("resolved")) and "::" in node["rty"] and not re.search(r"\bimpl\b|\{|\bdyn\b", node["rty"]):
             self.types.setdefault(r.t, node["rty"])      # the compiler's type of the call expression (variant domains, Option vs Result)
         self.path.events.append(Event("call", fn, list(args), r, node.get("sp"), name=name))
@@ -1995,7 +2012,7 @@ class Evaluator:
             if isinstance(a0, V):
                 return list(a0.fields) if a0.name in ("Some", "Ok") else []
             return NotImplemented
-        if isinstance(a0, list) and (is_iter_fn or name in ("any", "all", "find", "position", "map", "filter", "collect", "count", "next", "filter_map", "take", "skip", "last", "flatten")):
+        if isinstance(a0, list) and (is_iter_fn or name in ("any", "all", "find", "position", "map", "filter", "collect", "count", "next", "filter_map", "take", "skip", "last", "flatten", "take_while", "skip_while")):
             return self.list_iter(name, args, depth, node)
         if name == "chain" and len(args) == 2 and isinstance(a0, (Iter, ChainIter, Sym, list)) and isinstance(args[1], (Iter, ChainIter, Sym, list)):
             mk = lambda x: Iter(x.t) if isinstance(x, Sym) else x  # noqa: E731
@@ -2465,6 +2482,11 @@ class Evaluator:
                 if isinstance(r, V) and r.name == "Some":
                     out.append(r.fields[0])
             return out
+        if name in ("take_while", "skip_while") and len(args) == 2:
+            k_ = 0
+            while k_ < len(xs) and self.decide_bool(ap(args[1], [xs[k_]])):
+                k_ += 1
+            return xs[:k_] if name == "take_while" else xs[k_:]
         if name == "take" and isinstance(args[1], int):
             return xs[:args[1]]
         if name == "skip" and isinstance(args[1], int):
@@ -2550,4 +2572,6 @@ def explore(F, fn, opaque=None, **kw):
     ev = Evaluator(F, opaque=opaque, **{k: v for k, v in kw.items() if k in ("inline_depth", "loop_bound", "inline_filter", "concrete_vec", "char_streams")})
     if kw.get("split_streams"):
         ev.split_streams = True
+    if kw.get("effectful"):
+        ev.effectful = re.compile(kw["effectful"]) if isinstance(kw["effectful"], str) else kw["effectful"]
     return ev.explore(fn, **{k: v for k, v in kw.items() if k in ("args", "max_paths", "finalize")})
